@@ -3,7 +3,7 @@
 # prints three facts: suite passes with change / demo fails with change / demo passes without
 set -u
 cand=$1; wt=$2
-export CARGO_NET_OFFLINE=true CARGO_TARGET_DIR=/tmp/wt-target
+export CARGO_NET_OFFLINE=true CARGO_TARGET_DIR=/tmp/wt2-target
 cd $wt && git checkout -q -- . && git clean -fdq tests/
 demo=$(ls $cand/demo*.rs | head -1)
 git apply $cand/patch.diff || { echo "APPLY-FAILED"; exit 1; }
